@@ -161,7 +161,34 @@ def _policy(rng):
             "cache_only": rng.random() < 0.15}
 
 
+def gen_history_owners(rng, tier):
+    """Two owners of one cache directory in one process: owner 0 only polls (`cache_only=True`: it looks entries
+    up and never stores), owner 1 searches and stores what is absent (`overwrite=False`). Each keeps its object --
+    and whatever it remembers about earlier look-ups -- while the other works. Entries never change once present,
+    so the history means the same as the corresponding sequence of fresh processes (the model's `restart`)."""
+    pool = gen_pool(rng)
+    cls = rng.choice(["hyper", "hyper", "rg", "real-hyper", "real-rg"])
+    cfg = {"cls": cls, "hash_method": rng.choice(["a", "a", "default"]), "disk": True,
+           "split": rng.choice([True, False, "auto", "default"]), "overwrite": False, "cache_only": True, "owner": 0}
+    pols = {0: {"overwrite": False, "cache_only": True}, 1: {"overwrite": False, "cache_only": False}}
+    hot = rng.sample(range(len(pool)), min(len(pool), rng.choice([2, 3])))
+    events, cur = [], 0
+    for _ in range(rng.randint(8, 16)):
+        if events and rng.random() < 0.4:
+            cur = 1 - cur
+            events.append({"restart": dict(pols[cur]), "owner": cur})
+            continue
+        qi = rng.choice(hot) if rng.random() < 0.85 else rng.randrange(len(pool))
+        net = pool[qi][1]
+        ans = {"tree": gen.rand_tree(rng, len(net.inputs)), "sliced": [], "flops": rng.choice([10, 20, 30, 40])}
+        events.append({"q": qi, "ans": ans, "api": "call" if rng.random() < 0.2 else "search"})
+    return {"pool": [[k, n.json()] for k, n in pool], "cfg": cfg, "events": events, "mode": "fork",
+            "theme": "two-owners"}
+
+
 def gen_history(rng, tier):
+    if rng.random() < 0.15:
+        return gen_history_owners(rng, tier)
     pool = gen_pool(rng)
     cls = rng.choice(["hyper", "hyper", "rg", "rg", "real-hyper", "real-rg"])
     cfg = {"cls": cls, "hash_method": rng.choice(["a", "a", "b", "default", "default"]),
@@ -201,17 +228,31 @@ def run_history(hist, base, mode=None):
     d = os.path.join(base, "cache") if cfg0["disk"] else None
     cur = {"cls": cfg0["cls"], "hash_method": cfg0["hash_method"], "directory": d, "split": cfg0["split"],
            "overwrite": cfg0["overwrite"], "cache_only": cfg0["cache_only"]}
-    segments = [[dict(cur), []]]
+    segments = [[dict(cur), [], cfg0.get("owner")]]
     for ev in hist["events"]:
         if "restart" in ev:
             cur = dict(cur, **ev["restart"])
-            segments.append([dict(cur), []])
+            segments.append([dict(cur), [], ev.get("owner")])
         else:
             segments[-1][1].append({"q": _q(pool[ev["q"]]), "ans": ev["ans"], "api": ev["api"],
                                     "overwrite": ev.get("overwrite")})
     out = []
     first = True
-    for cfg, ops in segments:
+    if any(own is not None for _, _, own in segments):
+        # several owners of the directory alive in one process (objects persist across their segments)
+        r = U.run_child(mode, "session_owners", [{"cfg": c, "ops": o, "owner": own} for c, o, own in segments])
+        if r[0] != "ok":
+            raise RuntimeError("session failed: %r" % (r,))
+        for (cfg, ops, _), res in zip(segments, r[1]):
+            if not first:
+                out.append(None)
+            first = False
+            for o in res["obs"]:
+                o["cfg"] = {"overwrite": cfg["overwrite"], "cache_only": cfg["cache_only"]}
+                o["split"] = res["split"]
+            out.extend(res["obs"])
+        return out
+    for cfg, ops, _ in segments:
         if not first:
             out.append(None)
         first = False
@@ -559,9 +600,12 @@ def check_history(ctx, drv, hist, root, tag):
     after_restart = False
     for ev, o in zip(hist["events"], obs):
         if o is None:
-            ctx.count("event:restart")
+            ctx.count("event:restart" if "owner" not in ev else "event:owner-switch")
             after_restart = True
             continue
+        if hist.get("theme") == "two-owners":
+            ctx.count("two-owners:" + ("poller" if o["cfg"]["cache_only"] else "searcher") + ":" +
+                      (o["outcome"] if o["outcome"] != "ok" else ("hit" if o["searches"] == 0 else "searched")))
         kind = o["outcome"] if o["outcome"] != "ok" else (
             "hit" if o["searches"] == 0 else "searched")
         if o["api"] == "update":
